@@ -1,6 +1,258 @@
+import Proofs.C14.Descsum
+import Proofs.C14.Scan
 /-!
-# C14 — property theorems only (see DESIGN.md §3 C14).
+# C14 — descriptors and wallets derive what they describe and recognise only their own
+
+Property theorems only (DESIGN.md §3 C14).  The checksum model is `Model/C14/Descsum.lean` over the
+generated tables and loop constants (`Generated/Descsum.lean`, regenerated from
+`btclib/descriptors/descriptors.py` on every run): a changed character of `INPUT_CHARSET`, a changed
+generator word or a changed shift breaks an obligation here.
 -/
 namespace Props.C14
+open Btc Btc.Descsum Gen.Descsum
+
+/-! ## T1 — BIP380 checksum -/
+
+/-- the three tables and the loop constants in the current source are BIP380's. -/
+theorem tables_are_bip380 :
+    INPUT_CHARSET = Ref.INPUT_CHARSET ∧ CHECKSUM_CHARSET = Ref.CHECKSUM_CHARSET ∧ GENERATOR = Ref.GENERATOR ∧
+    INPUT_INDEX.map (·.1) = INPUT_CHARSET ∧
+    POLY_INIT = 1 ∧ POLY_TOP = 35 ∧ POLY_MASK = 0x7ffffffff ∧ POLY_SHIFT = 5 ∧
+    SYM_MASK = 31 ∧ GROUP_SHIFT = 5 ∧ GROUP_W0 = 9 ∧ GROUP_W1 = 3 ∧ TAIL_W = 3 ∧
+    CHK_LEN = 8 ∧ CHK_FINAL = 1 ∧ CHK_BITS = 5 ∧ CHK_MASK = 31 :=
+  ⟨input_charset_eq_ref, checksum_charset_eq_ref, generator_eq_ref, index_keys, by decide⟩
+
+/-- T1a: btclib's `__descsum_polymod` is the reference `descsum_polymod`, on every symbol list. -/
+theorem polymod_eq_reference (symbols : List Nat) : polymod symbols = Ref.descsumPolymod symbols :=
+  polymod_eq_ref symbols
+
+/-- T1a: btclib's `__descsum_expand` is the reference `descsum_expand`, on EVERY string: the same
+    symbols, and failure on exactly the same strings (the dictionary `_INPUT_INDEX` answers like
+    `INPUT_CHARSET.find` because no character of the charset is repeated). -/
+theorem expand_eq_reference (s : List Char) : expand s = Ref.descsumExpand s := expand_eq_ref s
+
+/-- T1a: `body + "#" + checksum(body)` is the reference `descsum_create(body)`, on every string. -/
+theorem checksum_eq_reference (body : List Char) :
+    (checksum body).map (fun c => body ++ '#' :: c) = Ref.descsumCreate body :=
+  checksum_eq_ref body
+
+example : checksum "raw(deadbeef)".toList = some "89f8spxm".toList := by decide +kernel
+example : Ref.descsumCreate "raw(deadbeef)".toList = some "raw(deadbeef)#89f8spxm".toList := by decide +kernel
+
+/-- T1b: the polymod is XOR-linear: on two equally long symbol sequences (symbols and states below
+    2^40, which is what every reachable value is) the polymod of the symbol-wise XOR, started from
+    the XOR of the states, is the XOR of the polymods. -/
+theorem polymod_xor_linear (xs ys : List Nat) (a b : Nat) (ha : a < 2 ^ 40) (hb : b < 2 ^ 40)
+    (hl : xs.length = ys.length) (hx : ∀ v ∈ xs, v < 2 ^ 40) (hy : ∀ v ∈ ys, v < 2 ^ 40) :
+    polymodFrom (a ^^^ b) (List.zipWith (· ^^^ ·) xs ys) = polymodFrom a xs ^^^ polymodFrom b ys :=
+  polymodFrom_zipXor xs ys a b ha hb hl hx hy
+
+example : polymodFrom (1 ^^^ 6) (List.zipWith (· ^^^ ·) [3, 7, 30] [9, 0, 25])
+    = polymodFrom 1 [3, 7, 30] ^^^ polymodFrom 6 [9, 0, 25] := by decide
+
+/-- T1c: two bodies over the charset that differ in exactly one character have different checksums.
+    NO bound on the body length: one character changes its own symbol and the group symbol at most
+    three places later, the error word `x^k·d₁ + d₂` (k ≤ 3, d₁,d₂ < 32) is non-zero below 2^20, and
+    multiplication by x is injective on the 40-bit state (residue table by `decide +kernel`). -/
+theorem single_substitution_changes_checksum (pre post : List Char) (c c' : Char) (cs cs' : List Char)
+    (hne : c ≠ c') (h : checksum (pre ++ c :: post) = some cs) (h' : checksum (pre ++ c' :: post) = some cs') :
+    cs ≠ cs' :=
+  checksum_subst_ne pre post c c' cs cs' hne h h'
+
+example : checksum "pk(0a)".toList ≠ checksum "pk(0b)".toList := by decide +kernel
+
+/-- `strip_checksum` accepts a body with its own checksum and returns the body; a body alone is
+    returned unchanged; `add_checksum` appends exactly `checksum(body)`. -/
+theorem checksummed_accepted (body cs : List Char) (hb : '#' ∉ body) (h : checksum body = some cs) :
+    stripChecksum (body ++ '#' :: cs) = .ok body ∧ stripChecksum body = .ok body ∧
+      addChecksum body = .ok (body ++ '#' :: cs) ∧ addChecksum (body ++ '#' :: cs) = .ok (body ++ '#' :: cs) := by
+  have hc : '#' ∉ cs := fun e => (checksum_chars h '#' e).1 rfl
+  have s1 : stripChecksum (body ++ '#' :: cs) = .ok body := by
+    simp [stripChecksum, partition_append body cs hb, hc, h]
+  have s2 : stripChecksum body = .ok body := by
+    simp [stripChecksum, partition_none body hb, h]
+  exact ⟨s1, s2, by simp [addChecksum, s2, h], by simp [addChecksum, s1, h]⟩
+
+/-- T1c at the entry point: take a checksummed descriptor `body#checksum(body)` and change ONE
+    character of the body into another character of the charset: `strip_checksum` (hence `parse`)
+    refuses it.  Every body length.  (A changed checksum character is refused because the eight
+    characters are compared as text; a changed `#` leaves a string that no longer ends in `)`, which
+    is the parser's refusal and is checked on the real code by the harness.) -/
+theorem single_substitution_refused (pre post : List Char) (c c' : Char) (cs : List Char)
+    (hb : '#' ∉ pre ++ c :: post) (h : checksum (pre ++ c :: post) = some cs)
+    (hne : c' ≠ c) (hc' : c' ∈ INPUT_CHARSET) :
+    ∃ e, stripChecksum (pre ++ c' :: post ++ '#' :: cs) = .error e := by
+  have hpre : '#' ∉ pre := fun e => hb (List.mem_append_left _ e)
+  have hpost : '#' ∉ post := fun e => hb (List.mem_append_right _ (List.mem_cons_of_mem _ e))
+  by_cases hh : c' = '#'
+  · subst hh
+    refine ⟨.twoSeparators, ?_⟩
+    have : pre ++ '#' :: post ++ '#' :: cs = pre ++ '#' :: (post ++ '#' :: cs) := by simp
+    simp [stripChecksum, this, partition_append pre _ hpre]
+  · have hb' : '#' ∉ pre ++ c' :: post := by
+      intro e
+      rcases List.mem_append.mp e with e | e
+      · exact hpre e
+      · rcases List.mem_cons.mp e with e | e
+        · exact hh e.symm
+        · exact hpost e
+    have hvalid : ∀ x ∈ pre ++ c' :: post, x ∈ INPUT_CHARSET := by
+      have hv := (checksum_isSome_iff _).mp ⟨cs, h⟩
+      intro x hx
+      rcases List.mem_append.mp hx with hx | hx
+      · exact hv x (List.mem_append_left _ hx)
+      · rcases List.mem_cons.mp hx with hx | hx
+        · rw [hx]; exact hc'
+        · exact hv x (List.mem_append_right _ (List.mem_cons_of_mem _ hx))
+    obtain ⟨cs', h'⟩ := (checksum_isSome_iff _).mpr hvalid
+    have hne' := checksum_subst_ne pre post c c' cs cs' (Ne.symm hne) h h'
+    have hc : '#' ∉ cs := fun e => (checksum_chars h '#' e).1 rfl
+    have hp := partition_append (pre ++ c' :: post) cs hb'
+    simp only [List.append_assoc, List.cons_append] at hp
+    refine ⟨.mismatch, ?_⟩
+    simp [stripChecksum, hp, hc, h', hne']
+
+example : ∃ e, stripChecksum "raw(deadbeee)#89f8spxm".toList = .error e := ⟨.mismatch, by decide +kernel⟩
+
+/-- T1d: a descriptor string holding any character outside `INPUT_CHARSET` — in the body or after the
+    `#` — is refused, with or without a checksum. -/
+theorem outside_charset_refused (d : List Char) (x : Char) (hx : x ∈ d) (hbad : x ∉ INPUT_CHARSET) :
+    ∃ e, stripChecksum d = .error e := by
+  unfold stripChecksum
+  simp only
+  split
+  · exact ⟨_, rfl⟩
+  · rename_i hcon
+    cases hcs : checksum (partition '#' d).1 with
+    | none => exact ⟨_, rfl⟩
+    | some expected =>
+      rcases partition_mem d x hx with hm | hm | ⟨hm, hsep⟩
+      · exact absurd ((checksum_isSome_iff _).mp ⟨_, hcs⟩ x hm) hbad
+      · exact absurd (hm ▸ hash_mem) hbad
+      · have : (partition '#' d).2.2 ≠ expected := by
+          intro e
+          exact hbad ((checksum_chars hcs x (e ▸ hm)).2)
+        simp [hsep, this]
+
+example : ∃ e, stripChecksum "raw(deadébeef)".toList = .error e := ⟨.badChar, by decide +kernel⟩
+
+
+/-! ## T5 — "is this output mine" is a find-first scan
+
+`spk`/`spks` is the derivation function (abstract: any function of branch and index); the scan is
+the loop of `Descriptor.index_of` / `RangedWallet.position_of` / `DescriptorWallet.position_of`. -/
+section T5
+open Btc.Scan
+variable {β σ : Type} [DecidableEq σ]
+
+/-- `Descriptor.index_of` answers `i` iff `i` is the FIRST index in `0 … last` (index 0 only when the
+    descriptor is not ranged) at which the descriptor describes the script. -/
+theorem index_of_find_first (spks : Nat → List σ) (ranged : Bool) (s : σ) (last i : Nat) :
+    indexOf spks ranged s last = some i ↔
+      i ≤ (if ranged then last else 0) ∧ s ∈ spks i ∧ ∀ j, j < i → s ∉ spks j := by
+  unfold indexOf
+  rw [findFirst_some_iff]
+  simp
+
+/-- … and answers `None` iff no index in the searched range describes it. -/
+theorem index_of_none_iff (spks : Nat → List σ) (ranged : Bool) (s : σ) (last : Nat) :
+    indexOf spks ranged s last = none ↔ ∀ j, j ≤ (if ranged then last else 0) → s ∉ spks j := by
+  unfold indexOf
+  rw [findFirst_none_iff]
+  simp
+
+example : indexOf (fun i => [i / 2, 100 + i]) true 3 9 = some 6 := by decide
+
+/-- `RangedWallet.position_of` answers `(b, i)` iff it is the lexicographically first position of
+    `branches × [0 … last]` (branches in `branches` order) whose script is the query. -/
+theorem position_of_find_first (spk : β → Nat → σ) (s : σ) (last : Nat) (branches : List β) (b : β) (i : Nat) :
+    positionOf spk s last branches = some (b, i) ↔
+      ∃ pre post, branches = pre ++ b :: post ∧ (∀ b' ∈ pre, ∀ j, j ≤ last → spk b' j ≠ s) ∧
+        i ≤ last ∧ spk b i = s ∧ ∀ j, j < i → spk b j ≠ s :=
+  positionOf_some_iff spk s last branches b i
+
+/-- … and answers "not mine" iff no position in the searched range derives the script. -/
+theorem position_of_none_iff (spk : β → Nat → σ) (s : σ) (last : Nat) (branches : List β) :
+    positionOf spk s last branches = none ↔ ∀ b ∈ branches, ∀ j, j ≤ last → spk b j ≠ s :=
+  positionOf_none_iff spk s last branches
+
+/-- hence: whatever position is answered derives the script and lies in the searched range. -/
+theorem position_of_derives (spk : β → Nat → σ) (s : σ) (last : Nat) (branches : List β) (b : β) (i : Nat)
+    (h : positionOf spk s last branches = some (b, i)) : b ∈ branches ∧ i ≤ last ∧ spk b i = s := by
+  obtain ⟨pre, post, e, _, h1, h2, _⟩ := (positionOf_some_iff spk s last branches b i).mp h
+  exact ⟨by rw [e]; simp, h1, h2⟩
+
+/-- a script the wallet derived in range is always recognised, at a position that derives it. -/
+theorem position_of_own (spk : β → Nat → σ) (last : Nat) (branches : List β) (b₀ : β) (i₀ : Nat)
+    (hb : b₀ ∈ branches) (hi : i₀ ≤ last) :
+    ∃ b i, positionOf spk (spk b₀ i₀) last branches = some (b, i) ∧ spk b i = spk b₀ i₀ := by
+  cases h : positionOf spk (spk b₀ i₀) last branches with
+  | none => exact absurd rfl ((positionOf_none_iff _ _ _ _).mp h b₀ hb i₀ hi)
+  | some p =>
+    obtain ⟨b, i⟩ := p
+    exact ⟨b, i, rfl, (position_of_derives spk _ last branches b i h).2.2⟩
+
+/-- "returns that position": when the scripts in the searched range are pairwise distinct (the
+    hypothesis under which the sentence is true at all — two positions paying to one script is what
+    `assert_derives` refuses), the position asked about is the position answered. -/
+theorem position_of_own_exact (spk : β → Nat → σ) (last : Nat) (branches : List β) (b₀ : β) (i₀ : Nat)
+    (hb : b₀ ∈ branches) (hi : i₀ ≤ last)
+    (hd : ∀ b ∈ branches, ∀ b' ∈ branches, ∀ i j, i ≤ last → j ≤ last → spk b i = spk b' j → b = b' ∧ i = j) :
+    positionOf spk (spk b₀ i₀) last branches = some (b₀, i₀) := by
+  obtain ⟨b, i, h, he⟩ := position_of_own spk last branches b₀ i₀ hb hi
+  obtain ⟨hb', hi', _⟩ := position_of_derives spk _ last branches b i h
+  obtain ⟨rfl, rfl⟩ := hd b hb' b₀ hb i i₀ hi' hi he
+  exact h
+
+example : positionOf (fun (b i : Nat) => 10 * i + b) 31 9 [0, 1] = some (1, 3) := by decide
+example : positionOf (fun (b i : Nat) => 10 * i + b) 32 9 [0, 1] = none := by decide
+
+/-- `DescriptorWallet.position_of` (one `index_of` per chain): an answer derives the script, within
+    the range searched for that chain. -/
+theorem descriptor_wallet_position_derives (spks : β → Nat → List σ) (ranged : β → Bool) (s : σ) (last : Nat)
+    (branches : List β) (b : β) (i : Nat) (h : positionOfDesc spks ranged s last branches = some (b, i)) :
+    b ∈ branches ∧ i ≤ (if ranged b then last else 0) ∧ s ∈ spks b i := by
+  induction branches with
+  | nil => simp [positionOfDesc] at h
+  | cons x xs ih =>
+    simp only [positionOfDesc] at h
+    cases hf : indexOf (spks x) (ranged x) s last with
+    | some k =>
+      rw [hf] at h
+      simp only [Option.some.injEq, Prod.mk.injEq] at h
+      obtain ⟨rfl, rfl⟩ := h
+      have := (index_of_find_first (spks x) (ranged x) s last k).mp hf
+      exact ⟨List.mem_cons_self .., this.1, this.2.1⟩
+    | none =>
+      rw [hf] at h
+      have := ih h
+      exact ⟨List.mem_cons_of_mem _ this.1, this.2⟩
+
+/-- … and "not mine" means no chain describes the script anywhere in its searched range. -/
+theorem descriptor_wallet_position_none_iff (spks : β → Nat → List σ) (ranged : β → Bool) (s : σ) (last : Nat)
+    (branches : List β) :
+    positionOfDesc spks ranged s last branches = none ↔
+      ∀ b ∈ branches, ∀ j, j ≤ (if ranged b then last else 0) → s ∉ spks b j := by
+  induction branches with
+  | nil => simp [positionOfDesc]
+  | cons x xs ih =>
+    simp only [positionOfDesc]
+    cases hf : indexOf (spks x) (ranged x) s last with
+    | some k =>
+      have := (index_of_find_first (spks x) (ranged x) s last k).mp hf
+      constructor
+      · intro h; cases h
+      · intro h; exact absurd this.2.1 (h x (List.mem_cons_self ..) k this.1)
+    | none =>
+      have hn := (index_of_none_iff (spks x) (ranged x) s last).mp hf
+      simp only [ih]
+      constructor
+      · intro h b hb j hj
+        rcases List.mem_cons.mp hb with e | e
+        · rw [e] at hj ⊢; exact hn j hj
+        · exact h b e j hj
+      · intro h b hb j hj; exact h b (List.mem_cons_of_mem _ hb) j hj
+
+end T5
 
 end Props.C14
